@@ -47,6 +47,11 @@ PrintTotal == IsPrint => /\ E.panicked = FALSE
 Undecided(p) == p.st = "grey" /\ p.why # "range"     \* exponent forms etc.: the property does not fix the number format
 PrintFaithful == (IsPrint /\ ~E.panicked /\ ~E.perr /\ PDoc.ok) =>
                  LET p == Parse(E.text) IN Undecided(p) \/ (p.st = "ok" /\ Eq(SNorm(p.tree), SNorm(PDoc.tree)))
+\* a printed text the listed grammar does not decide (e.g. an escape other than \\ and \q) must at least come back through
+\* the real parser as the same value ("converting to text and parsing that text back yields the identical value")
+PrintRound == (IsPrint /\ ~E.panicked /\ ~E.perr /\ PDoc.ok /\ Undecided(Parse(E.text))) =>
+              /\ ~E.backpanicked /\ ~E.backerr /\ OneDoc(E.back)
+              /\ Eq(SNorm(DecDoc("file", E.back).tree), SNorm(PDoc.tree))
 PrintDecided == (IsPrint /\ ~E.panicked /\ ~E.perr /\ PDoc.ok) => ~Undecided(Parse(E.text))
 \* the real parser reads the (faithful) text back to the same value
 PrintBack == (IsPrint /\ ~E.panicked /\ ~E.perr /\ PDoc.ok) =>
@@ -54,4 +59,7 @@ PrintBack == (IsPrint /\ ~E.panicked /\ ~E.perr /\ PDoc.ok) =>
              (p.st = "ok" /\ Eq(SNorm(p.tree), SNorm(PDoc.tree))) =>
                 /\ ~E.backpanicked /\ ~E.backerr /\ OneDoc(E.back)
                 /\ Eq(SNorm(DecDoc("file", E.back).tree), SNorm(PDoc.tree))
+\* C02: the text as a carrier value: encoded and decoded again (at the root, through a pointer, in a field, map or
+\* list) it is the same text; the real encoder accepts it (PrintBack / PrintRound above say what it is worth)
+PrintStable == (IsPrint /\ ~E.panicked /\ ~E.perr /\ PDoc.ok) => (~E.rterr /\ E.text2 = E.text)
 =============================================================================
